@@ -2,6 +2,7 @@ package props
 
 import (
 	"bytes"
+	"encoding/json"
 	"errors"
 	"fmt"
 	"os"
@@ -54,6 +55,10 @@ func genClients(ts *sim.Tapes, cfg work.Config, prop, tier string) (prelude *wor
 	if prop == "C03" {
 		nw = 1 + t.Intn(4)
 		nr = t.Intn(3)
+	}
+	if prop == "C08" {
+		nw = 1 + t.Intn(3)
+		nr = t.Intn(4)
 	}
 	ntx := 3 + t.Intn(6)
 	if tier == "thorough" {
@@ -127,7 +132,30 @@ func (ss schedsim) Gen(prop, tier string, ts *sim.Tapes) *Case {
 	prelude, clients := genClients(ts, cfg, prop, tier)
 	c := &Case{Prop: prop, Engine: ss.Name(), Tier: tier, Seed: ts.Seed, Run: ts.Run, Prog: prelude, Clients: clients,
 		Tapes: map[string][]uint64{}, Params: map[string]int{"stickiness": []int{0, 50, 80, 95}[t.Pick(1, 2, 3, 2)]}}
+	if prop == "C08" {
+		// I/O faults while the tasks run: armed-call indices over the concurrent phase
+		ft := ts.Get("fault")
+		ntx := 0
+		for _, cl := range clients {
+			for _, st := range cl {
+				if st.Kind == "tx" {
+					ntx++
+				}
+			}
+		}
+		var ex schedExtra
+		nf := 1 + ft.Intn(3)
+		for i := 0; i < nf; i++ {
+			ex.Faults = append(ex.Faults, sim.FaultPlan{K: ft.Intn(5*ntx + 4), Kind: []string{"eio", "short", "enospc"}[ft.Intn(3)]})
+		}
+		c.Extra, _ = json.Marshal(ex)
+	}
 	return c
+}
+
+// schedExtra: I/O faults injected while the client tasks run (C08's concurrent arm).
+type schedExtra struct {
+	Faults []sim.FaultPlan `json:"faults,omitempty"`
 }
 
 type stopRun struct{}
@@ -155,6 +183,10 @@ type mtWorld struct {
 	newest      int
 	// C14
 	pathReplaced bool
+	// C08 concurrent arm: I/O faults while tasks run
+	disk        *sim.Disk
+	bodySerial  int          // serial number of the writer body that holds the writer lock
+	faultedBody map[int]string // body serial -> description of the fault that fired inside its commit
 }
 
 func (m *mtWorld) fail(prop, class, f string, a ...any) {
@@ -285,6 +317,32 @@ func (ss schedsim) runInBubble(c *Case, dir string, out *Outcome) {
 			}
 		}
 	}
+	var disk *sim.Disk
+	var sx schedExtra
+	if len(c.Extra) > 0 {
+		_ = json.Unmarshal(c.Extra, &sx)
+	}
+	if c.Prop == "C08" && len(sx.Faults) > 0 {
+		disk = sim.NewDisk(path)
+		disk.PageSize = cfg.PageSize
+		disk.Multi = sx.Faults
+		disk.Veto = func(op string, afterMeta bool) bool {
+			// listed finding F6 (the final sync fails while readers are or may be open) and the documented
+			// present-or-absent exception are decided by the sequential arm; a failing (un)map leaves the
+			// whole DB unusable for every task, which the sequential arm also decides
+			return (op == "fdatasync" && afterMeta) || op == "mmap" || op == "munmap" || op == "mlock" || op == "munlock"
+		}
+		disk.OnFire = func(op, kind string) {
+			if m != nil {
+				m.faultedBody[m.bodySerial] = op + ":" + kind
+				out.fault(op+":"+kind, 1)
+				if m.openTx > 1 {
+					out.fault("with-other-transactions-open-during-failure", 1)
+				}
+			}
+		}
+		w.Disk = disk
+	}
 	w.Install()
 	defer sim.Uninstall()
 
@@ -305,7 +363,10 @@ func (ss schedsim) runInBubble(c *Case, dir string, out *Outcome) {
 		}
 	}
 	m = &mtWorld{db: pe.DB, cfg: cfg, s: s, versions: map[int]*model.Bucket{}, inflight: map[int]*model.Bucket{}, probes: map[string]int{}, readerAge: map[int]int{},
-		used: map[int]map[uint64]bool{}, readersOpen: map[int]int{}}
+		used: map[int]map[uint64]bool{}, readersOpen: map[int]int{}, disk: disk, faultedBody: map[int]string{}}
+	if disk != nil {
+		disk.Arm(true)
+	}
 	m.versions[pe.LastTxid] = pe.Cur
 	m.lastRet = pe.LastTxid
 	m.newest = pe.LastTxid
@@ -367,10 +428,47 @@ func (ss schedsim) runInBubble(c *Case, dir string, out *Outcome) {
 			}
 		}
 	}
+	if disk != nil {
+		disk.Arm(false)
+	}
+	if c.Prop == "C08" && s.Deadlock == "" && !s.Stuck && len(m.viol) == 0 && !m.closed {
+		// after the failures: clean reopen shows exactly the newest acknowledged version, accounting exact
+		pe.DB = nil
+		pe.Viol = nil
+		pe.Cur = m.versions[m.lastRet]
+		pe.LastTxid = m.lastRet
+		pe.AllowInvalidMeta = true // a failed commit may have left a torn record in the slot it was writing
+		if err := pe.Open(pe.Opts); err != nil {
+			m.fail("C08", "reopen-after-fault", "Open after the run: %v", err)
+		} else {
+			pe.CheckContent("reopen after concurrent failures")
+			pe.CheckFile("reopen after concurrent failures")
+			for _, v := range pe.Viol {
+				v.Msg = v.Prop + "/" + v.Class + ": " + v.Msg
+				v.Prop, v.Class = "C08", "state-after-reopen"
+				m.viol = append(m.viol, v)
+			}
+			_ = pe.Close()
+		}
+	}
+	if c.Prop == "C08" && len(m.faultedBody) > 0 {
+		// what goes wrong after an injected commit failure (a blocked writer, a reader whose snapshot
+		// changed, a lost or half-applied transaction) is C08's to report
+		for _, v := range m.viol {
+			if v.Prop != "C08" {
+				v.Class = "after-failed-commit:" + v.Prop + "/" + v.Class
+				v.Prop = "C08"
+			}
+		}
+	}
 	out.Viol = append(out.Viol, m.viol...)
 	out.merge(m.probes)
 	out.Evals = 1
-	if m.commits > 0 && s.Preempts > 0 {
+	if c.Prop == "C08" {
+		if len(m.faultedBody) > 0 && s.Preempts > 0 {
+			out.Distinct = append(out.Distinct, s.Fingerprint())
+		}
+	} else if m.commits > 0 && s.Preempts > 0 {
 		out.Distinct = append(out.Distinct, s.Fingerprint())
 	}
 	out.Sample = map[string]any{"run": c.Run, "cfg": cfg, "clients": len(c.Clients), "decisions": s.Decisions, "preemptions": s.Preempts, "commits": m.commits}
@@ -453,8 +551,11 @@ func (ss schedsim) writer(m *mtWorld, e *work.Exec, txn *work.Txn, t *sim.Task) 
 	lastRetAtInvoke := m.lastRet
 	var w *model.Bucket
 	id := -1
+	serial := -1
 	body := func(tx *bolt.Tx) bool {
 		id = tx.ID()
+		m.bodySerial++
+		serial = m.bodySerial
 		m.bodies++
 		m.openTx++
 		defer func() { m.bodies--; m.openTx-- }()
@@ -525,6 +626,11 @@ func (ss schedsim) writer(m *mtWorld, e *work.Exec, txn *work.Txn, t *sim.Task) 
 			if !errors.Is(err, work.ErrBody) {
 				m.fail("C03", "body-error", "Update with failing body returned %v", err)
 			}
+		} else if why, faulted := m.faultedBody[serial]; faulted {
+			if err == nil {
+				m.fail("C08", "swallowed-error", "Update returned nil although %s failed inside its commit", why)
+			}
+			m.probes["commit-failed-by-injected-fault"]++
 		} else if err != nil {
 			m.fail("C03", "unexpected-error", "Update returned %v", err)
 		} else {
@@ -544,7 +650,15 @@ func (ss schedsim) writer(m *mtWorld, e *work.Exec, txn *work.Txn, t *sim.Task) 
 			m.inflight[id] = w
 			setInflight = true
 			err = tx.Commit()
-			if err != nil {
+			if why, faulted := m.faultedBody[serial]; faulted {
+				if err == nil {
+					m.fail("C08", "swallowed-error", "Commit returned nil although %s failed inside it", why)
+				}
+				m.probes["commit-failed-by-injected-fault"]++
+				if serial%2 == 0 {
+					_ = tx.Rollback() // the `defer tx.Rollback()` idiom after a failed Commit
+				}
+			} else if err != nil {
 				m.fail("C03", "unexpected-error", "Commit returned %v", err)
 			} else {
 				committed = true
@@ -555,7 +669,8 @@ func (ss schedsim) writer(m *mtWorld, e *work.Exec, txn *work.Txn, t *sim.Task) 
 			}
 		}
 	}
-	if setInflight {
+	if setInflight && m.inflight[id] == w {
+		// (a writer whose commit failed may return after a successor has re-used its id)
 		delete(m.inflight, id)
 	}
 	if committed {
